@@ -5,7 +5,7 @@
 // scripted per-datagram fault schedule (drop / dup / delay / flip / trunc, both directions, handshake
 // included). One op line = one complete scenario; its result is the canonical observation.
 //
-//	run cl=<plain|chrome> v=<1|2> seed=<n> sc=<nc>,<ns>,<nd>,<maxKiB> faults=<dir>:<idx>:<kind>:<arg>,…|-
+//	run cl=<plain|chrome> v=<1|2> seed=<n> sc=<nc>,<ns>,<nd>,<maxKiB> faults=<dir>:<idx>:<kind>:<arg>,…|- [x=<cwKiB>,<one>,<boStart>,<boDur>,<dgi>]
 //	 => dial=<err> c2s=<id>:<len>/<want>:<sha8>/<wantsha8>:<pfx>:<err>;… s2c=… dg=<got>/<sent>:<dups>:<bad> t=<ms>
 //
 // Everything about the scenario (stream sizes, contents, Write/Read chunkings) is derived from `seed`.
@@ -49,6 +49,12 @@ type scenario struct {
 	nd      int // datagrams client->server
 	maxKiB  int
 	faults  []e2e.Fault
+	// round 3 (glue around the stream core); all optional, 0 = off
+	cwKiB   int // connection-level receive window of both endpoints (KiB): transfers limited by MAX_DATA
+	one     int // 1: every stream is written with ONE Write call followed by Close (nothing re-registers the stream later)
+	boStart int // path blackout (both directions) from boStart ms after the start ...
+	boDur   int // ... for boDur ms (far below the idle timeout)
+	dgi     int // DATAGRAMs are sent one every dgi ms while the streams are being transferred (0: all at once)
 }
 
 func (s scenario) String() string {
@@ -60,13 +66,17 @@ func (s scenario) String() string {
 		}
 		fs = strings.Join(parts, ",")
 	}
-	return fmt.Sprintf("run cl=%s v=%d seed=%d sc=%d,%d,%d,%d faults=%s", s.client, s.version, s.seed, s.nc, s.ns, s.nd, s.maxKiB, fs)
+	out := fmt.Sprintf("run cl=%s v=%d seed=%d sc=%d,%d,%d,%d faults=%s", s.client, s.version, s.seed, s.nc, s.ns, s.nd, s.maxKiB, fs)
+	if s.cwKiB != 0 || s.one != 0 || s.boDur != 0 || s.dgi != 0 {
+		out += fmt.Sprintf(" x=%d,%d,%d,%d,%d", s.cwKiB, s.one, s.boStart, s.boDur, s.dgi)
+	}
+	return out
 }
 
 func parseScenario(op string) (scenario, bool) {
 	var s scenario
 	f := strings.Fields(op)
-	if len(f) != 6 || f[0] != "run" {
+	if (len(f) != 6 && len(f) != 7) || f[0] != "run" {
 		return s, false
 	}
 	kv := map[string]string{}
@@ -90,6 +100,14 @@ func parseScenario(op string) (scenario, bool) {
 			s.faults = append(s.faults, e2e.Fault{Dir: e2e.Dir(vh.Atoi64(q[0])), Index: int(vh.Atoi64(q[1])), Kind: q[2], Arg: int(vh.Atoi64(q[3]))})
 		}
 	}
+	if x, ok := kv["x"]; ok {
+		if n, _ := fmt.Sscanf(x, "%d,%d,%d,%d,%d", &s.cwKiB, &s.one, &s.boStart, &s.boDur, &s.dgi); n != 5 {
+			return s, false
+		}
+		if s.cwKiB < 0 || s.cwKiB > 4096 || s.boStart < 0 || s.boDur < 0 || s.boDur > 5000 || s.dgi < 0 || s.dgi > 1000 {
+			return s, false
+		}
+	}
 	if s.nc < 0 || s.nc > 8 || s.ns < 0 || s.ns > 8 || s.nd < 0 || s.nd > 64 || s.maxKiB < 0 || s.maxKiB > 1024 {
 		return s, false
 	}
@@ -109,6 +127,9 @@ func streamPlan(seed uint64, d, k, maxKiB int) (data []byte, chunks *vh.Rand) {
 		n = int(r.Range(1500, 30000))
 	default:
 		n = int(r.Range(1, int64(maxKiB)*1024))
+	}
+	if maxKiB >= 256 { // bulk scenarios (connection-window limited / blackout at a full congestion window)
+		n = int(r.Range(int64(maxKiB)*512, int64(maxKiB)*1024))
 	}
 	if n > maxKiB*1024 {
 		n = maxKiB * 1024
@@ -162,7 +183,16 @@ func errClass(err error) string {
 	case errors.As(err, &ae):
 		return fmt.Sprintf("app-%d", uint64(ae.ErrorCode))
 	case errors.As(err, &te):
-		return fmt.Sprintf("transport-%#x", uint64(te.ErrorCode))
+		msg := strings.Map(func(r rune) rune {
+			if r == ' ' || r == ';' || r == ':' || r == ',' {
+				return '_'
+			}
+			return r
+		}, te.ErrorMessage)
+		if len(msg) > 80 {
+			msg = msg[:80]
+		}
+		return fmt.Sprintf("transport-%#x(%s)", uint64(te.ErrorCode), msg)
 	case errors.As(err, &ie):
 		return "idle-timeout"
 	case errors.As(err, &he):
@@ -203,8 +233,14 @@ type writer interface {
 	SetWriteDeadline(time.Time) error
 }
 
-func writeAll(s writer, data []byte, r *vh.Rand, deadline time.Time) error {
+func writeAll(s writer, data []byte, r *vh.Rand, deadline time.Time, one bool) error {
 	s.SetWriteDeadline(deadline)
+	if one && len(data) > 0 {
+		if _, err := s.Write(data); err != nil {
+			return err
+		}
+		return s.Close()
+	}
 	for len(data) > 0 {
 		n := int([]int64{1, r.Range(1, 100), r.Range(100, 3000), r.Range(3000, 70000)}[r.Pick(3, 17, 45, 35)])
 		if n > len(data) {
@@ -250,12 +286,25 @@ func runScenario(t *testing.T, sc scenario) (res string) {
 			ver = quic.Version2
 		}
 		conf := &quic.Config{EnableDatagrams: true, Versions: []quic.Version{ver}}
+		if sc.cwKiB > 0 { // the connection-level window is the limit, the stream-level windows are not
+			conf.InitialConnectionReceiveWindow = uint64(sc.cwKiB) << 10
+			conf.MaxConnectionReceiveWindow = uint64(sc.cwKiB) << 10
+			conf.InitialStreamReceiveWindow = 2 << 20
+			conf.MaxStreamReceiveWindow = 2 << 20
+		}
 		env, err := e2e.Start(e2e.Setup{Spec: spec, Faults: sc.faults, ServerConf: conf, ClientConf: conf})
 		if err != nil {
 			res = "setup-error start"
 			return
 		}
 		start := time.Now()
+		if sc.boDur > 0 { // a short blackout of the whole path: every datagram sent in the interval is lost
+			from, to := time.Duration(sc.boStart)*time.Millisecond, time.Duration(sc.boStart+sc.boDur)*time.Millisecond
+			env.Net.Tap = func(e2e.Dir, int, []byte) bool {
+				t := time.Since(start)
+				return t < from || t >= to
+			}
+		}
 		deadline := start.Add(runDeadline)
 		ctx, cancel := context.WithDeadline(context.Background(), deadline)
 		var (
@@ -335,7 +384,7 @@ func runScenario(t *testing.T, sc scenario) (res string) {
 				go func() {
 					defer wg.Done()
 					data, r := streamPlan(sc.seed, 1, k, sc.maxKiB)
-					note(writeAll(s, data, r, deadline), "s-write")
+					note(writeAll(s, data, r, deadline, sc.one == 1), "s-write")
 				}()
 			}
 		}()
@@ -351,7 +400,7 @@ func runScenario(t *testing.T, sc scenario) (res string) {
 				go func() {
 					defer wg.Done()
 					data, r := streamPlan(sc.seed, 0, k, sc.maxKiB)
-					note(writeAll(s, data, r, deadline), "c-write")
+					note(writeAll(s, data, r, deadline, sc.one == 1), "c-write")
 				}()
 				go func() { // the server closes its half immediately: EOF with no bytes
 					defer wg.Done()
@@ -359,11 +408,22 @@ func runScenario(t *testing.T, sc scenario) (res string) {
 					io.Copy(io.Discard, s)
 				}()
 			}
-			for i := 0; i < sc.nd; i++ {
-				if err := c.SendDatagram(dgramPayload(sc.seed, i)); err != nil {
-					note(err, "senddatagram")
-					break
+			sendDgrams := func() {
+				for i := 0; i < sc.nd; i++ {
+					if sc.dgi > 0 {
+						time.Sleep(time.Duration(sc.dgi) * time.Millisecond)
+					}
+					if err := c.SendDatagram(dgramPayload(sc.seed, i)); err != nil {
+						note(err, "senddatagram")
+						break
+					}
 				}
+			}
+			if sc.dgi > 0 { // interleaved with the stream transfer, so that DATAGRAM and STREAM frames share packets
+				wg.Add(1)
+				go func() { defer wg.Done(); sendDgrams() }()
+			} else {
+				sendDgrams()
 			}
 			for k := 0; k < sc.ns; k++ {
 				s, err := c.AcceptUniStream(ctx)
@@ -487,6 +547,31 @@ func (rn *runner) GenOp(r *vh.Rand, i int) string {
 			enum.pos++
 			return s.String()
 		}
+	}
+	switch r.Pick(52, 16, 16, 16) {
+	case 1: // connection-window limited: several streams, each handed over with one Write + Close
+		return scenario{client: []string{"plain", "chrome"}[r.Pick(70, 30)], version: 1 + r.Pick(60, 40), seed: r.U64() >> 1,
+			nc: int(r.Range(2, 4)), ns: int(r.Range(0, 2)), nd: 0, maxKiB: 300,
+			cwKiB: []int{16, 24, 48, 96}[r.Intn(4)], one: 1}.String()
+	case 2: // bulk transfer with a short blackout while the congestion window is full
+		return scenario{client: []string{"plain", "chrome"}[r.Pick(70, 30)], version: 1 + r.Pick(60, 40), seed: r.U64() >> 1,
+			nc: int(r.Range(1, 2)), ns: int(r.Range(0, 1)), nd: 0, maxKiB: 600, one: r.Intn(2),
+			boStart: int(r.Range(45, 160)), boDur: int([]int64{r.Range(30, 120), r.Range(120, 900)}[r.Intn(2)])}.String()
+	case 3: // DATAGRAMs interleaved with bulk stream data; some client datagrams are reordered by a fraction of
+		// the RTT: declared lost by the sender (packet threshold) although they arrive — a spurious loss. (Longer
+		// delays do not show a duplicate: the receiver then drops the late packet as "below the ACKed range".)
+		sc := scenario{client: []string{"plain", "chrome"}[r.Pick(75, 25)], version: 1 + r.Pick(60, 40), seed: r.U64() >> 1,
+			nc: int(r.Range(1, 2)), ns: 1, nd: int(r.Range(20, 40)), maxKiB: 300, dgi: 1}
+		seen := map[int]bool{}
+		for n := int(r.Range(3, 8)); len(sc.faults) < n; {
+			idx := int(r.Range(12, 60))
+			if seen[idx] {
+				continue
+			}
+			seen[idx] = true
+			sc.faults = append(sc.faults, e2e.Fault{Dir: e2e.ToServer, Index: idx, Kind: "delay", Arg: int(r.Range(3, 18))})
+		}
+		return sc.String()
 	}
 	// random schedule: 0..4 faults among the first 30 datagrams of either direction
 	sc := scenario{client: []string{"plain", "chrome"}[r.Pick(65, 35)], version: 1 + r.Pick(60, 40), seed: r.U64() >> 1,
